@@ -2601,9 +2601,9 @@ class Circuit(AbstractCircuit):
         groups = _group_until_different(insertions, key=lambda e: e[0], val=lambda e: e[1])
         for i, group in groups:
             insert_index = i + shift
-            next_index = copy.insert(insert_index, reversed(group), InsertStrategy.EARLIEST)
-            if next_index > insert_index:
-                shift += next_index - insert_index
+            old_length = len(copy._moments)
+            copy.insert(insert_index, reversed(group), InsertStrategy.EARLIEST)
+            shift += len(copy._moments) - old_length
         self._moments = copy._moments
         self._mutated()
 
